@@ -8,6 +8,7 @@ import (
 	"compress/gzip"
 	"encoding/json"
 	"errors"
+	"fmt"
 	"github.com/fluhus/gostuff/aio"
 	"io"
 	"math/rand"
@@ -100,12 +101,26 @@ func (c *chunkReader) Read(p []byte) (int, error) {
 var errInjected = errors.New("injected read fault")
 
 // faultReader delivers data[:at] in reads of at most rs bytes and then fails: once (then EOF) or forever.
+// withData: the last bytes before the fault come in the same Read call as the error. wrapEOF: the error is a failure that wraps
+// io.EOF (as a transport error does that ended with "unexpected EOF"): not a clean end of data.
 type faultReader struct {
-	data    []byte
-	at, rs  int
-	forever bool
-	pos     int
-	fired   int
+	data     []byte
+	at, rs   int
+	forever  bool
+	pos      int
+	fired    int
+	withData bool
+	wrapEOF  bool
+}
+
+var errInjectedEOF = fmt.Errorf("injected transport failure: %w", io.EOF)
+
+func (f *faultReader) fail() error {
+	f.fired++
+	if f.wrapEOF {
+		return errInjectedEOF
+	}
+	return errInjected
 }
 
 func (f *faultReader) Read(p []byte) (int, error) {
@@ -113,12 +128,14 @@ func (f *faultReader) Read(p []byte) (int, error) {
 		if f.fired > 0 && !f.forever {
 			return 0, io.EOF
 		}
-		f.fired++
-		return 0, errInjected
+		return 0, f.fail()
 	}
 	n := min(f.rs, len(p), f.at-f.pos)
 	copy(p, f.data[f.pos:f.pos+n])
 	f.pos += n
+	if f.withData && f.pos >= f.at {
+		return n, f.fail()
+	}
 	return n, nil
 }
 
@@ -502,13 +519,18 @@ func faultDrive(args []string) error {
 					continue
 				}
 				for _, forever := range []bool{false, true} {
-					for _, rs := range []int{1, 4096} {
+					for vi, rs := range []int{1, 4096, 4096, 7} {
 						if long && rs == 1 && k%2 == 1 {
+							continue
+						}
+						// variants 2 and 3: the error arrives in the same Read as the last data; the error wraps io.EOF
+						withData, wrapEOF := vi == 2, vi == 3
+						if (withData || wrapEOF) && long && k%3 != 0 {
 							continue
 						}
 						items := []gItem{}
 						unbounded := false
-						_, p := fd.reader(&faultReader{data: in.Data, at: k, rs: rs, forever: forever}, func(it gItem) bool {
+						_, p := fd.reader(&faultReader{data: in.Data, at: k, rs: rs, forever: forever, withData: withData, wrapEOF: wrapEOF}, func(it gItem) bool {
 							items = append(items, it)
 							if len(items) >= limit { // the consumer keeps iterating past errors; an honest iterator ends by itself
 								unbounded = true
@@ -520,7 +542,8 @@ func faultDrive(args []string) error {
 						if forever {
 							mode = "forever"
 						}
-						tw.emit(crossEvent{Sid: sid, Fmt: fd.name, Op: "fault", Cfg: "fault", WF: true, Ids: tab.ids(items), Capped: unbounded,
+						cfgName := []string{"fault", "fault", "fault-in-the-same-read-as-the-last-data", "fault-that-wraps-io.EOF"}[vi]
+						tw.emit(crossEvent{Sid: sid, Fmt: fd.name, Op: "fault", Cfg: cfgName, WF: true, Ids: tab.ids(items), Capped: unbounded,
 							Panic: p, K: k, Mode: mode, RS: rs, Input: []int{}})
 					}
 				}
